@@ -75,6 +75,10 @@ package frame
 //@   ensures  view: rvCol(result) == f.data[i].ptr && rvOff(result) == f.off && rvLen(result) == f.len
 //@   modifies nothing
 
+//@ func frame.Frame.Interface
+//@   requires wf(f) && 0 <= i && i < len(f.data)
+//@   modifies nothing
+
 //@ func frame.Frame.HasCodec
 //@   requires 0 <= col && col < len(f.data)
 //@   ensures result == (f.data[col].ops.Encode != nil)
